@@ -139,7 +139,9 @@ ApplySuspect(x, s) ==
             ELSE NoChange(x)
   ELSE IF r0.state # "alive" THEN NoChange(x)
   ELSE IF s.node = x.self
-       THEN LET ni == RefuteInc(x.selfInc, s.inc)
+       THEN IF x.leave THEN NoChange(x)      \* a leaving node does not refute (its departure must not become stale)
+            ELSE
+            LET ni == RefuteInc(x.selfInc, s.inc)
                 nr == [r0 EXCEPT !.inc = ni]
             IN Out(nr, t0, ni, x.nn, <<RefuteBcast(x.self, nr, ni)>>, <<>>, FALSE, 1)
   ELSE LET k0  == x.cfg.mult - 2
@@ -193,7 +195,7 @@ TimerDecision(r, id) == ~IsAbsent(r) /\ r.state = "suspect" /\ r.changed = id
 TimerDeadMsg(self, name, r) == [node |-> name, inc |-> r.inc, from |-> self, addr |-> "",
                                 port |-> 0, meta |-> "", vsn |-> <<>>, kind |-> "dead"]
 
-(* resetNodes: which records are removed *)
+(* resetNodes: which records are removed (never the local node's own record) *)
 Reaped(r, now, gossipDead) == DeadOrLeft(r) /\ Since(now, r.changed) > gossipDead
 
 (* verifyProtocol, literally.  local: set of [state, vsn(6)];  remote: sequence of [state, vsn] *)
